@@ -143,9 +143,21 @@ def jsonable_chunks(c):
     return c
 
 
-def from_json_chunks(c):
+IDENTITY = ["fresh"]  # "fresh": equal inner tuples are distinct objects; "shared": one object per value
+
+
+def from_json_chunks(c, _memo=None):
+    """Chunk spec from its JSON form.  Equal inputs can be built from the SAME objects or from equal
+    distinct ones (``a = (5, 5); rechunk((a, a))`` vs ``rechunk(((5, 5), (5, 5)))``): which of the two
+    happens is the harness's choice (IDENTITY), never something a name or a value may depend on."""
+    top = _memo is None
+    if top:
+        _memo = {}
     if isinstance(c, list):
-        return tuple(from_json_chunks(x) for x in c)
+        t = tuple(from_json_chunks(x, _memo) for x in c)
+        if IDENTITY[0] == "shared":
+            return _memo.setdefault(t, t)
+        return t
     return c
 
 
